@@ -86,6 +86,7 @@ struct EnumDef {
 struct TraitDef {
     name: String,
     method: String,
+    #[allow(dead_code)]
     ret: Ty,
     impls: Vec<Ty>,
 }
@@ -95,6 +96,7 @@ struct FnDef {
     name: String,
     generics: Vec<&'static str>,
     params: Vec<Ty>,
+    #[allow(dead_code)]
     ret: Ty,
 }
 
